@@ -216,6 +216,10 @@ func (g *G) Done() bool {
 func (g *G) Blocked() bool { Quiesce(); return !g.Done() }
 
 func Quiesce()             { time.Sleep(20 * time.Millisecond) }
+
+// QuiesceKeep is Quiesce, except that under the stall schedule a goroutine that has been stalled (and holds
+// no lock) may remain stalled across it, so that further harness steps happen while it is stopped.
+func QuiesceKeep() { time.Sleep(20 * time.Millisecond) }
 func RunOutClock()         { time.Sleep(300 * time.Millisecond) }
 func FireTimer() bool      { time.Sleep(50 * time.Millisecond); return false }
 func PendingTimers() int   { return 0 }
